@@ -36,6 +36,7 @@ type Program struct {
 
 // Func is a declared function, method or function literal of a repo package.
 type Func struct {
+	idxLoops map[types.Object]ast.Expr // index variable of a canonical index loop -> collection
 	Pkg   *packages.Package
 	Decl  *ast.FuncDecl
 	Lit   *ast.FuncLit
